@@ -659,7 +659,9 @@ pub fn test_cli_dicts(c: &CliDictCase, ctx: &mut CaseCtx) -> Result<(), String> 
         let real_dir = sb.ws_file("real");
         std::fs::create_dir_all(&real_dir).map_err(io)?;
         let fname = doc_name(c.name as usize, "md");
-        let text = "We like frobnix and qwertzu and wibblet here.\n";
+        // `Plughish` goes to the file dictionary first; the lower-case spelling is then still
+        // unknown and goes to the user dictionary: two dictionaries hold one word in two spellings
+        let text = "We like frobnix and qwertzu and wibblet here. Plughish is a name, and plughish is a verb.\n";
         std::fs::write(real_dir.join(&fname), text).map_err(io)?;
         // the path as the user opens it, in the editor and on the command line
         let opened = match c.path_kind % 3 {
@@ -680,11 +682,17 @@ pub fn test_cli_dicts(c: &CliDictCase, ctx: &mut CaseCtx) -> Result<(), String> 
         let mut srv = Server::start(&sb, sb.settings(json!({})), None)?;
         srv.open(&uri, "markdown", text)?;
         srv.execute_and_publish("HarperAddToUserDict", json!(["frobnix", uri]), &uri)?;
-        let d = srv.execute_and_publish("HarperAddToFileDict", json!(["qwertzu", uri]), &uri)?;
+        srv.execute_and_publish("HarperAddToFileDict", json!(["qwertzu", uri]), &uri)?;
+        let d = srv.execute_and_publish("HarperAddToFileDict", json!(["Plughish", uri]), &uri)?;
+        let flagged: Vec<String> = d.iter().filter(|d| is_spelling(d)).map(|d| diag_text(text, d)).collect();
+        if flagged != ["wibblet", "plughish"] {
+            return Ok(Err(format!("language server: after adding frobnix (user), qwertzu and Plughish (file) the spelling diagnostics are on {flagged:?}, expected wibblet and the lower-case plughish")));
+        }
+        let d = srv.execute_and_publish("HarperAddToUserDict", json!(["plughish", uri]), &uri)?;
         srv.shutdown()?;
         let flagged: Vec<String> = d.iter().filter(|d| is_spelling(d)).map(|d| diag_text(text, d)).collect();
         if flagged != ["wibblet"] {
-            return Ok(Err(format!("language server: after adding frobnix (user) and qwertzu (file) the spelling diagnostics are on {flagged:?}, expected only wibblet")));
+            return Ok(Err(format!("language server: after adding frobnix, plughish (user) and qwertzu, Plughish (file) the spelling diagnostics are on {flagged:?}, expected only wibblet")));
         }
         let cli = std::env::var("HV_CLI_BIN").unwrap_or_else(|_| "/verif/target/ls/release/harper-cli".into());
         let out = std::process::Command::new(&cli)
@@ -727,7 +735,7 @@ pub fn test_cli_dicts(c: &CliDictCase, ctx: &mut CaseCtx) -> Result<(), String> 
         }
         if labels != 1 {
             return Ok(Err(format!(
-                "frobnix (user dictionary) and qwertzu (file dictionary) were added through the language server for {}, but `harper-cli lint` on the same path reports {labels} spelling problems instead of the one on wibblet: {}",
+                "frobnix, plughish (user dictionary) and qwertzu, Plughish (file dictionary) were added through the language server for {}, but `harper-cli lint` on the same path reports {labels} spelling problems instead of the one on wibblet: {}",
                 opened.display(),
                 printed.lines().filter(|l| l.contains("Did you mean") || l.contains("No such file")).map(|l| l.trim().trim_start_matches(['│', '╰', '─', ' ']).to_string()).collect::<Vec<_>>().join(" | ")
             )));
